@@ -15,6 +15,7 @@ ALPHA_PEEWEE = ("ins1", "bulk2", "bulk51", "mix", "ups", "ups2", "rep", "repl", 
 QUICK_DROPS = ("get_id", "count", "updB2", "bulk49")
 BOUNDS = {
     "fault_ops": "delete/update of an absent bucket and a bulk insert through a stale handle of a deleted bucket must raise, change nothing, and leave later operations as durable as before",
+    "migrated_start": "sqlite stores opened (default path) beside a legacy database holding 1/30/49/50/51 events, followed by up to 56 single inserts / one 49-bulk / 28 2-bulks / 56 deletes with a crash image at every return",
     "quick": {"sqlite": [o for o in ALPHA_SQLITE if o not in QUICK_DROPS], "peewee": list(ALPHA_PEEWEE), "initial_state": "bucket B1 with 2 single-inserted events, flushed", "deletes": "a second sqlite configuration starts from 70 single-inserted events and explores delete/insert/read only, so that > 64 buffered deletions are reachable"},
     "thorough": {"as": "quick", "plus": "clock +1/+9 in the sqlite alphabet, peewee with bulk 49/50 and 101/201-row bulk inserts"},
 }
@@ -40,9 +41,139 @@ def configs(ctx):
     return c
 
 
+# ---------------------------------------------------------------------------
+# stores that START from a migrated legacy database (the other way a store comes to hold events
+# without any call of the application): the bounded tail must hold from there too
+MIG_LEGACY_SIZES = (1, 30, 49, 50, 51)
+MIG_FOLLOW = (("ins1", 56), ("bulk49", 1), ("bulk2", 28), ("del", 56))
+
+
+def _unit_migrated(args):
+    import os
+    import shutil
+    import sqlite3
+    from datetime import datetime, timedelta, timezone
+
+    from aw_core.models import Event
+    from aw_datastore import Datastore
+    from aw_datastore.storages import PeeweeStorage, SqliteStorage
+    from aw_datastore.storages import peewee as pw
+    from mc.core import Unit
+    from mc.drivers import crash as K
+    from mc.drivers import stores as S
+
+    n_legacy, (follow, reps) = args
+    ctx = kcommon._G["ctx"]
+    root = os.path.join(ctx.wdir(), f"mig-{n_legacy}-{follow}")
+    keep = os.environ.get("XDG_DATA_HOME")
+    u = Unit()
+    T0 = datetime(2019, 3, 4, 5, 6, 7, tzinfo=timezone.utc)
+    try:
+        shutil.rmtree(root, ignore_errors=True)
+        os.makedirs(root)
+        os.environ["XDG_DATA_HOME"] = root
+        S.close_all()
+        K.release_clock()
+        legacy = Datastore(PeeweeStorage, testing=True)
+        legacy.create_bucket("L", type="t", client="c", hostname="h", created=T0, name="legacy")
+        evs = [Event(timestamp=T0 + timedelta(seconds=i), duration=timedelta(milliseconds=i % 5), data={"legacy": i}) for i in range(n_legacy)]
+        legacy["L"].insert(evs if len(evs) > 1 else evs[0])
+        pw._db.close()
+        new = Datastore(SqliteStorage, testing=True)  # default path: migration runs
+        st = new.storage_strategy
+        path = [r[2] for r in st.conn.execute("PRAGMA database_list")][0]
+        written = n_legacy
+        serial = 0
+        ids = []
+
+        def durable():
+            img = os.path.join(root, "img.db")
+            K.write_image(K.file_bytes(path), img)
+            c = sqlite3.connect(img)
+            try:
+                nb = c.execute("SELECT count(*) FROM buckets").fetchone()[0]
+                ne = c.execute("SELECT count(*) FROM events").fetchone()[0]
+            finally:
+                c.close()
+            return nb, ne
+
+        def look(when):
+            u.transitions += 1
+            u.evaluations += 1
+            u.traces += 1
+            u.hist["crash_points_at_returns"] += 1
+            nb, ne = durable()
+            case = {"kind": "migrated", "legacy_events": n_legacy, "follow": follow, "after": when}
+            if nb != 1:
+                u.violation("sqlite:migrated-start:bucket-not-durable", f"store opened beside a legacy database with {n_legacy} events, {when}: the reopened database has {nb} buckets", case, size=n_legacy * 100 + serial)
+            pend = pending[0]
+            if pend > 64:
+                u.nontrivial += 1
+            missing = written_now[0] - ne if follow != "del" else None
+            if follow != "del":
+                if missing > 64:
+                    u.violation("sqlite:migrated-start:too-many-buffered-writes", f"store opened beside a legacy database with {n_legacy} events, {when}: {missing} elementary event writes are missing from the reopened database (bound: about 50, checked as 64)", case, size=n_legacy * 100 + serial)
+                if missing:
+                    u.nontrivial += 1
+            else:
+                # deletions: durable count may exceed the live count by the buffered deletions and fall
+                # short of it by the buffered insertions; bound the distance both ways
+                if abs(ne - written_now[0]) > 64:
+                    u.violation("sqlite:migrated-start:too-many-buffered-writes", f"store opened beside a legacy database with {n_legacy} events, {when}: the reopened database holds {ne} events, {written_now[0]} are live (bound: about 50, checked as 64)", case, size=n_legacy * 100 + serial)
+
+        pending = [0]
+        written_now = [written]
+        look("straight after the constructor returned")
+        b = new["L"]
+        for r in range(reps):
+            if follow == "ins1":
+                serial += 1
+                b.insert(Event(timestamp=T0 + timedelta(hours=1, seconds=serial), duration=0, data={"n": serial}))
+                written_now[0] += 1
+            elif follow.startswith("bulk"):
+                k = int(follow[4:])
+                b.insert([Event(timestamp=T0 + timedelta(hours=1, seconds=serial + i + 1), duration=0, data={"n": serial + i + 1}) for i in range(k)])
+                serial += k
+                written_now[0] += k
+            elif follow == "del":
+                if not ids:
+                    # ids of the migrated events, read on the store's own connection without going
+                    # through the storage API (whose reads flush)
+                    ids = [row[0] for row in st.conn.execute("SELECT id FROM events ORDER BY id")]
+                if r >= len(ids):
+                    break
+                b.delete(ids[r])
+                written_now[0] -= 1
+            look(f"after {r + 1} x {follow}")
+        u.states += 1
+        u.sample({"kind": "store started from a migrated legacy database", "legacy_events": n_legacy, "then": f"{reps} x {follow}", "crash_image": "at every return"}, cap=1)
+    finally:
+        try:
+            pw._db.close()
+        except Exception:
+            pass
+        S.close_all()
+        if keep is None:
+            os.environ.pop("XDG_DATA_HOME", None)
+        else:
+            os.environ["XDG_DATA_HOME"] = keep
+        shutil.rmtree(root, ignore_errors=True)
+    return u.result()
+
+
 def run(ctx):
-    return kcommon.run_k(ctx, "c06", configs(ctx))
+    agg = kcommon.run_k(ctx, "c06", configs(ctx))
+    units = [(n, f) for n in MIG_LEGACY_SIZES for f in MIG_FOLLOW]
+    for r in ctx.pmap(_unit_migrated, units):
+        agg.add(r)
+    agg.extra["migrated_start_runs"] = len(units)
+    return agg
 
 
 def run_case(ctx, case):
+    if case.get("kind") == "migrated":
+        kcommon._G["ctx"] = ctx
+        f = [x for x in MIG_FOLLOW if x[0] == case["follow"]][0]
+        r = _unit_migrated((case["legacy_events"], f))
+        return {"violations": [[v["key"], v["what"]] for v in r["violations"]]}
     return kcommon.replay_case(ctx, dict(case, oracle="c06"))
